@@ -109,7 +109,7 @@ pub fn gen_case(prop: &str, tier: Tier, seed: u64, idx: u64) -> Option<Case> {
     let thorough = tier == Tier::Thorough;
     Some(match prop {
         "C01" | "C15" => {
-            let mut o = GenOpts { hostile_pct: 4, reorder_pct: 40, audio_pct: 70, encode_pct: 8, ..Default::default() };
+            let mut o = GenOpts { hostile_pct: 4, reorder_pct: 40, audio_pct: 70, encode_pct: 8, round_count_pm: if prop == "C01" { 2 } else { 0 }, ..Default::default() };
             o.big_frames = r.chance(1, 5);
             if prop == "C15" {
                 o.audio_pct = 100;
@@ -128,7 +128,7 @@ pub fn gen_case(prop: &str, tier: Tier, seed: u64, idx: u64) -> Option<Case> {
                 let (h, side) = gen_frag_history(r, &FragOpts { big, ..Default::default() });
                 Case::Frag { h, side: Side { av1: side, vp9: None, op: 0 } }
             } else {
-                let mut o = GenOpts { hostile_pct: 6, reorder_pct: 30, audio_pct: 60, meta_pct: 60, encode_pct: 10, finish_games: r.chance(1, 5), ..Default::default() };
+                let mut o = GenOpts { hostile_pct: 6, reorder_pct: 30, audio_pct: 60, meta_pct: 60, encode_pct: 10, finish_games: r.chance(1, 5), round_count_pm: 3, ..Default::default() };
                 o.big_frames = r.chance(1, 8);
                 if thorough && r.chance(1, 300) {
                     o.max_video = 3000;
@@ -173,7 +173,7 @@ pub fn gen_case(prop: &str, tier: Tier, seed: u64, idx: u64) -> Option<Case> {
         }
         "C07" => return Some(mon_c07_case(r)),
         "C08" => {
-            let mut o = GenOpts { hostile_pct: 5, reorder_pct: 35, audio_pct: 65, meta_pct: 70, encode_pct: 5, consuming: false, ..Default::default() };
+            let mut o = GenOpts { hostile_pct: 5, reorder_pct: 35, audio_pct: 65, meta_pct: 70, encode_pct: 5, consuming: false, round_count_pm: 4, ..Default::default() };
             // some recordings with frames beyond 64 KiB, some long enough (and with enough equal
             // audio timestamps) for sorting / batching shortcuts to matter
             o.big_frames = r.chance(1, 8);
@@ -630,6 +630,10 @@ pub fn run_shard(a: &ShardArgs, progress: Option<Arc<Progress>>) -> (ShardResult
     let mut stopped_by = "count";
     let mut exhausted = false;
     let mut last_ckpt = Instant::now();
+    let reverse = std::env::var("VH_REVERSE").is_ok() && a.max_cases < u64::MAX / 4;
+    if std::env::var("VH_PRELUDE").is_ok() && a.prop == "C17" {
+        mon::c17::prelude();
+    }
     let snapshot = |obs: &Obs, viols: &BTreeMap<String, ViolRec>, cases: u64, k: u64, stopped_by: &str, exhausted: bool| -> (ShardResult, Vec<u64>) {
         let hashes: Vec<u64> = obs.nontrivial.iter().copied().collect();
         let res = ShardResult {
@@ -659,8 +663,10 @@ pub fn run_shard(a: &ShardArgs, progress: Option<Arc<Progress>>) -> (ShardResult
             stopped_by = "time";
             break;
         }
-        // case index space is striped over shards
-        let idx = k * a.nshards as u64 + a.shard as u64;
+        // case index space is striped over shards (VH_REVERSE: the same index range, last first —
+        // used to show that results do not depend on what ran earlier in the process)
+        let kk = if reverse { a.start_index + (a.max_cases - 1 - cases) } else { k };
+        let idx = kk * a.nshards as u64 + a.shard as u64;
         if a.skip.contains(&idx) {
             k += 1;
             cases += 1;
